@@ -754,6 +754,8 @@ CORPUS = [
     (["\\pL{2}quux"], {}), (["a", "b\\d"], {}), (["x*yz"], {}), (["(?:ab){11}"], {}), (["[a-k]z"], {}), (["[a-j]zz"], {}),
     (["Z|[\\r\\n]"], dict(crlf=True, word=True)), (["ZZ|[\\r\\n]"], dict(crlf=True)), (["Z|\\n"], {}), (["ZZ|\\n"], {}),
     (["a\rb"], dict(crlf=True)), (["a\rb"], dict(crlf=True, fixed=True)), (["a\nb"], {}), (["a\rb"], {}), (["a\x00b"], dict(lt=0, ban=None)),
+    (["(?:é\\.|x|K)K"], dict(crlf=True, unicode=False, dotall=True)), (["(?:ab|cd)ef"], {}), (["a(?:bc|de)(?:f|gh)"], {}),
+    (["(?:ab|cd)(?:ef|g)\\b"], {}), (["(?:ab|c\\d)ef"], {}),
     (["foo", "b\r"], dict(crlf=True)), (["a.b"], dict(fixed=True)), (["ab", "cd"], {}),
     (["foo\\w*?bar|quuux"], {}), (["\\bsherlock\\b"], {}), (["a|"], {}), (["(a|ab)(c|bcd)(d*)"], {}),
 ]
